@@ -10,6 +10,7 @@
  */
 #include "drvlib.h"
 #include <signal.h>
+#include <pthread.h>
 
 #define NDK 12
 static d_opts_t O;
@@ -17,8 +18,10 @@ static char dkeys[NDK][8];
 
 static void init_dkeys(void) { int i; for (i = 0; i < NDK; i++) sprintf(dkeys[i], "x%02d", i); }
 
+static int g_heavy = 0;
 static size_t pick_len(void) {
   uint32_t r = d_rn(100);
+  if (g_heavy) return r < 80 ? 60000 + d_rn(120000) : 50 + d_rn(3000);   /* megabytes of data: compactions with several outputs */
   if (r < 4) return 100000 + d_rn(60000);   /* one batch spanning 3-5 log blocks */
   if (r < 14) return 20000 + d_rn(30000);
   if (r < 30) return 5 + d_rn(20);
@@ -78,6 +81,8 @@ static void arm_faults(void) {
   }
 }
 
+static ldb_t *g_db;
+static void *race_helper(void *arg) { int level = *(int *)arg; ldb_test_compact_range(g_db, level, NULL, NULL); return NULL; }
 static long fired_seen = 0;
 static void note_fault(void) {
   char mark[400];
@@ -90,6 +95,7 @@ static int cmd_record(int argc, char **argv) {
   bits = (uint32_t)strtoul(argv[5], NULL, 0); nb = atoi(argv[6]); endmode = atoi(argv[7]);
   d_seed((uint64_t)seed * 7919ULL + 13); d_init_keys(); init_dkeys();
   d_make_opts(&O, bits); O.o.comparator = NULL; d_set_comparator(0);
+  g_heavy = getenv("CRASH_HEAVY") != NULL;
   d_rmrf(dbdir);
   io_shim_root(dbdir); io_shim_journal(argv[4]);
   rc = ldb_open(dbdir, &O.o, &db);
@@ -105,13 +111,38 @@ static int cmd_record(int argc, char **argv) {
     note_fault();
     sprintf(mark, "ack %d %d %d", b, wo.sync, rc); io_shim_mark(mark);
     ldb_batch_destroy(wb);
-    r = d_rn(100);
+    if (g_heavy) usleep(2500); /* a slow writer: the background compaction opens several outputs between two memtable switches */
+    if (g_heavy && b == 1) (void)ldb_snapshot(db); /* never released: compactions must keep every version, so they emit many outputs */
+    r = g_heavy ? 50 + d_rn(50) : d_rn(100);   /* heavy: automatic flushes and compactions only */
     if (r < 7) { rc = ldb_test_compact_memtable(db); note_fault(); sprintf(mark, "flush %d", rc); io_shim_mark(mark); }
     else if (r < 11) { ldb_test_compact_range(db, d_rn(3), NULL, NULL); note_fault(); io_shim_mark("compact 0"); }
     else if (r < 13 && !faulting) {
       ldb_close(db); io_shim_mark("closed 0");
       rc = ldb_open(dbdir, &O.o, &db); sprintf(mark, "opened %d", rc); io_shim_mark(mark);
       if (rc != 0) { io_shim_journal(NULL); return 4; }
+    }
+    if (getenv("CRASH_RACE") != NULL && b % 7 == 3 && b + 3 <= nb) {
+      /* steer the schedule: park a manual compaction right after its last output file is finished (delay point 21),
+         let the writer fill the memtable and switch logs, then let the compaction install and collect garbage
+         while the immutable memtable is still pending */
+      pthread_t th; int level = (b / 7) % 2; int j;
+      g_db = db;
+      lcdb_verif_hold(21, 1);
+      pthread_create(&th, NULL, race_helper, &level);
+      usleep(3000);
+      for (j = 0; j < 3; j++) {
+        ldb_batch_t *rb; ldb_writeopt_t rwo = *ldb_writeopt_default; char kb[32]; ldb_slice_t k, v; char *val; size_t len = j == 0 ? O.o.write_buffer_size + 4096 : 30;
+        b++;
+        rb = ldb_batch_create(); sprintf(kb, "m%05d", b); k = ldb_string(kb); val = d_mkval(b * 8 + 7, 6); v = ldb_slice(val, 6); ldb_batch_put(rb, &k, &v); free(val);
+        k = ldb_string(dkeys[b % NDK]); val = d_mkval(b * 8, len); v = ldb_slice(val, len); ldb_batch_put(rb, &k, &v); free(val);
+        sprintf(mark, "begin %d %d %d:%d", b, 0, b % NDK, b * 8); io_shim_mark(mark);
+        rc = ldb_write(db, rb, &rwo);
+        sprintf(mark, "ack %d %d %d", b, 0, rc); io_shim_mark(mark);
+        ldb_batch_destroy(rb);
+      }
+      lcdb_verif_hold(21, 0);
+      pthread_join(th, NULL);
+      io_shim_mark("race 0");
     }
     if (faulting) { /* reads keep returning correct data or an error while faults are active */
       ldb_slice_t k = ldb_string(dkeys[d_rn(NDK)]), v; int g = ldb_get(db, &k, &v, NULL);
@@ -144,9 +175,15 @@ static int cmd_recover(int argc, char **argv) {
     int wrc = 0, nf = 6;
     fprintf(o, ",\"follow\":{\"ops\":[");
     for (b = follow; b < follow + nf; b++) {
-      ldb_batch_t *wb = make_batch(b, desc, 3, 1); int r = ldb_write(db, wb, NULL);
+      ldb_batch_t *wb; int r;
+      if (b == follow) { /* the first follow-up batch rewrites EVERY data key, so that any resurrected older value shows */
+        char kb[32]; ldb_slice_t k, v; char *val; int j, p = 0; wb = ldb_batch_create();
+        sprintf(kb, "m%05d", b); k = ldb_string(kb); val = d_mkval(b * 8 + 7, 6); v = ldb_slice(val, 6); ldb_batch_put(wb, &k, &v); free(val);
+        for (j = 0; j < NDK; j++) { k = ldb_string(dkeys[j]); val = d_mkval(b * 16 + j, 9); v = ldb_slice(val, 9); ldb_batch_put(wb, &k, &v); free(val); p += sprintf(desc + p, "%s%d:%d", j ? "," : "", j, b * 16 + j); }
+      } else wb = make_batch(b, desc, 3, 1);
+      r = ldb_write(db, wb, NULL);
       ldb_batch_destroy(wb); if (r != 0) wrc = r;
-      if (b == follow + 2) { r = ldb_test_compact_memtable(db); if (r != 0) wrc = r; } /* forces a MANIFEST edit after recovery */
+      if (b == follow + 2 && follow % 2 == 0) { r = ldb_test_compact_memtable(db); if (r != 0) wrc = r; } /* even base: forces a MANIFEST edit after recovery; odd base: everything stays in the log */
       fprintf(o, "%s[%d,\"%s\"]", b > follow ? "," : "", b, desc);
     }
     fprintf(o, "],\"wrc\":%d,", wrc);
